@@ -79,10 +79,29 @@ def canon(e: ast.expr) -> str:
 
         return facts(e, True, canon)[0]
     if isinstance(e, ast.BoolOp):
-        return "(" + (" and " if isinstance(e.op, ast.And) else " or ").join(canon(v) for v in e.values) + ")"
+        parts = [canon(v) for v in e.values]
+        if not any(isinstance(x, (ast.Call, ast.NamedExpr, ast.Subscript)) for v in e.values for x in ast.walk(v)):
+            parts = sorted(parts)  # operands without calls/subscripts commute
+        return "(" + (" and " if isinstance(e.op, ast.And) else " or ").join(parts) + ")"
     if isinstance(e, (ast.List, ast.Tuple)):
         return "[" + ", ".join(canon(x) for x in e.elts) + "]"
     return src(e)
+
+
+def kind_of(e: ast.expr) -> str:
+    """Coarse construct kind: a Val mismatch is a violation only between
+    expressions of the same kind (a changed term); a different construct is an
+    unrecognised idiom."""
+    if isinstance(e, ast.Call):
+        f = e.func
+        return "call:" + (f.attr if isinstance(f, ast.Attribute) else src(f))
+    if isinstance(e, (ast.BinOp, ast.UnaryOp, ast.Constant, ast.Name, ast.Attribute, ast.Subscript)):
+        if isinstance(e, ast.UnaryOp) and isinstance(e.op, ast.Not):
+            return "bool"
+        return "term"
+    if isinstance(e, (ast.BoolOp, ast.Compare)):
+        return "bool"
+    return type(e).__name__
 
 
 def _ret_call(fn: Func, ctor: str) -> ast.Call:
@@ -258,7 +277,86 @@ class _Renamer(ast.NodeTransformer):
         return node
 
 
-def _norm_stmts(stmts: list[ast.stmt], mapping: dict[str, str]) -> list[str]:
+def _ret_normal(stmts: list[ast.stmt]) -> list[ast.stmt]:
+    """`if C: return A` followed by `return B`  ==>  `return A if C else B`
+    (also if/else both returning), applied recursively."""
+    out: list[ast.stmt] = []
+    i = 0
+    stmts = [s for s in stmts if not (isinstance(s, ast.Expr) and isinstance(s.value, ast.Constant))]
+    while i < len(stmts):
+        s = stmts[i]
+        if isinstance(s, ast.If):
+            body = _ret_normal(s.body)
+            orelse = _ret_normal(s.orelse)
+            nxt = stmts[i + 1] if i + 1 < len(stmts) else None
+            if len(body) == 1 and isinstance(body[0], ast.Return) and body[0].value is not None:
+                other = None
+                consumed = 0
+                if len(orelse) == 1 and isinstance(orelse[0], ast.Return) and orelse[0].value is not None:
+                    other = orelse[0].value
+                elif not orelse and isinstance(nxt, ast.Return) and nxt.value is not None and i + 2 == len(stmts):
+                    other = nxt.value
+                    consumed = 1
+                if other is not None:
+                    r = ast.Return(value=ast.IfExp(test=s.test, body=body[0].value, orelse=other))
+                    out.append(ast.fix_missing_locations(ast.copy_location(r, s)))
+                    i += 1 + consumed
+                    continue
+            n = clone(s)
+            n.body, n.orelse = body, orelse
+            out.append(n)
+        elif isinstance(s, (ast.For, ast.While)):
+            n = clone(s)
+            n.body, n.orelse = _ret_normal(s.body), _ret_normal(s.orelse)
+            out.append(n)
+        else:
+            out.append(s)
+        i += 1
+    return out
+
+
+def _inline_locals(fn_node: ast.AST, stmts: list[ast.stmt], only_within: ast.AST | None = None) -> list[ast.stmt]:
+    """Drop the definitions of single-assignment locals and inline them
+    (optionally only those defined inside `only_within`)."""
+    res = Resolver(fn_node)
+    if only_within is not None:
+        inside = {t.id for n in ast.walk(only_within) if isinstance(n, ast.Assign) for t in n.targets if isinstance(t, ast.Name)}
+        res.defs = {k: v for k, v in res.defs.items() if k in inside}
+    out: list[ast.stmt] = []
+
+    class T(ast.NodeTransformer):
+        def visit_Name(self, node: ast.Name) -> ast.AST:
+            if isinstance(node.ctx, ast.Load) and node.id in res.defs:
+                return res.expr(ast.Name(id=node.id, ctx=ast.Load()))
+            return node
+
+    def walk(ss: list[ast.stmt]) -> list[ast.stmt]:
+        r: list[ast.stmt] = []
+        for s in ss:
+            if isinstance(s, (ast.Assign, ast.AnnAssign)):
+                tg = s.targets[0] if isinstance(s, ast.Assign) and len(s.targets) == 1 else getattr(s, "target", None)
+                if isinstance(tg, ast.Name) and tg.id in res.defs:
+                    continue
+            n = clone(s)
+            for fld in ("body", "orelse"):
+                if hasattr(n, fld) and isinstance(getattr(n, fld), list) and getattr(n, fld) and isinstance(getattr(n, fld)[0], ast.stmt):
+                    setattr(n, fld, walk(getattr(s, fld)))
+            if not isinstance(n, (ast.If, ast.For, ast.While)):
+                n = T().visit(n)
+            else:
+                for fld in ("test", "iter"):
+                    if hasattr(n, fld):
+                        setattr(n, fld, T().visit(getattr(n, fld)))
+            r.append(n)
+        return r
+
+    return walk(stmts)
+
+
+def _norm_stmts(stmts: list[ast.stmt], mapping: dict[str, str], fn_node: ast.AST | None = None) -> list[str]:
+    if fn_node is not None:
+        stmts = _inline_locals(fn_node, stmts)
+    stmts = _ret_normal(stmts)
     out = []
     for s in stmts:
         if isinstance(s, ast.Expr) and isinstance(s.value, ast.Constant):
@@ -268,6 +366,37 @@ def _norm_stmts(stmts: list[ast.stmt], mapping: dict[str, str]) -> list[str]:
             t.returns = None
         out.append(" ".join(src(t).split()))
     return out
+
+
+def _kinds(stmts: list[str]) -> list[str]:
+    return [x.split(" ", 1)[0].split("(")[0] if x.split(" ", 1)[0] in ("if", "for", "while", "return", "raise", "try:", "with") else "stmt" for x in stmts]
+
+
+def _classify(sa: list[str], sb: list[str]) -> tuple[str, tuple[str, str]]:
+    """'same' | 'differs' (same skeleton, a term changed, or one side lacks an
+    effectful statement the other has) | 'unrecognised' (different skeleton)."""
+    if sa == sb:
+        return "same", ("", "")
+    if len(sa) == len(sb) and _kinds(sa) == _kinds(sb):
+        d = next((x, y) for x, y in zip(sa, sb) if x != y)
+        # a compound statement whose inner skeleton differs is an unrecognised rewrite
+        if d[0].startswith(("if ", "for ", "while ")) and _shape(d[0]) != _shape(d[1]):
+            return "unrecognised", d
+        return "differs", d
+    short, long_ = (sa, sb) if len(sa) < len(sb) else (sb, sa)
+    it = iter(long_)
+    if all(any(x == y for y in it) for x in short):
+        extra = [x for x in long_ if x not in short]
+        return "differs", (f"{len(sa)} statements", f"{len(sb)} statements; only one side has: {extra[0][:80]}")
+    return "unrecognised", (sa[0] if sa else "", sb[0] if sb else "")
+
+
+def _shape(text: str) -> str:
+    try:
+        t = ast.parse(text)
+    except SyntaxError:
+        return text
+    return " ".join(type(n).__name__ for n in ast.walk(t) if isinstance(n, (ast.stmt,)))
 
 
 SIBLINGS: list[tuple[str, str, dict[str, str], str]] = [
@@ -288,15 +417,17 @@ def rule_rsib(prog: Program, report: Report, only: tuple[str, ...] | None = None
         if only is not None and not any(o in a for o in only):
             continue
         fa, fb = prog.func(a), prog.func(b)
-        sa = _norm_stmts(fa.node.body, {})
-        sb = _norm_stmts(fb.node.body, ren)
+        sa = _norm_stmts(fa.node.body, {}, fa.node)
+        sb = _norm_stmts(fb.node.body, ren, fb.node)
         sa = [re.sub(r"Invalid input for \w+\.from_json", "Invalid input", x) for x in sa]
         sb = [re.sub(r"Invalid input for \w+\.from_json", "Invalid input", x) for x in sb]
-        if sa == sb:
+        verdict, diff = _classify(sa, sb)
+        if verdict == "same":
             report.ob("RSIB", a, f"agrees with {b.split('::')[1]} ({what})")
+        elif verdict == "unrecognised":
+            report.errors.append(f"RSIB: {a.split('::')[1]} and {b.split('::')[1]} no longer share a skeleton (one was restructured): the pair cannot be compared")
         else:
-            diff = next(((x, y) for x, y in zip(sa, sb) if x != y), (f"{len(sa)} statements", f"{len(sb)} statements"))
-            report.violate("RSIB", fb, fb.node, f"{a.split('::')[1]} and {b.split('::')[1]} disagree", f"the two implement the same contract ({what}) and were identical up to the class name; they now differ: `{diff[0][:90]}` vs `{diff[1][:90]}` - one of them is wrong", witness=[a, b], what=f"{a.split('::')[1]} ~ {b.split('::')[1]}")
+            report.violate("RSIB", fb, fb.node, f"{a.split('::')[1]} and {b.split('::')[1]} disagree", f"the two implement the same contract ({what}) and agree up to the class name except for: `{diff[0][:90]}` vs `{diff[1][:90]}` - one of them is wrong", witness=[a, b], what=f"{a.split('::')[1]} ~ {b.split('::')[1]}")
     if "loop" in parts:
         _loop_pair(prog, report)
     if "trio" in parts:
@@ -316,12 +447,36 @@ def _loop_pair(prog: Program, report: Report) -> None:
     """ResolvedPos.marks ~ marks_across: the non-inclusive filter loop."""
     a = prog.func("prosemirror/model/resolvedpos.py::ResolvedPos.marks")
     b = prog.func("prosemirror/model/resolvedpos.py::ResolvedPos.marks_across")
-    la = _norm_stmts([_loop_of(a)], {"other": "X"})
-    lb = _norm_stmts([_loop_of(b)], {"next": "X"})
-    if la == lb:
+    la = _body_norm(a, _loop_of(a), {"other": "X"})
+    lb = _body_norm(b, _loop_of(b), {"next": "X"})
+    verdict, diff = _classify(la, lb)
+    if verdict == "same":
         report.ob("RSIB", a.key, "the non-inclusive-mark filter loop agrees with marks_across (index re-examined after a removal)")
+    elif verdict == "unrecognised":
+        report.errors.append("RSIB: ResolvedPos.marks and marks_across no longer share a loop skeleton: the pair cannot be compared")
     else:
-        report.violate("RSIB", a, _loop_of(a), "marks and marks_across filter loops disagree", f"both drop the non-inclusive marks that do not continue on the other side with the same scan (`i -= 1` after a removal so the mark shifted into the slot is examined); they differ: `{la[0][:160]}` vs `{lb[0][:160]}`", witness=[a.key, b.key], what="marks ~ marks_across loop")
+        report.violate("RSIB", a, _loop_of(a), "marks and marks_across filter loops disagree", f"both drop the non-inclusive marks that do not continue on the other side with the same scan (`i -= 1` after a removal so the mark shifted into the slot is examined); they differ: `{diff[0][:160]}` vs `{diff[1][:160]}`", witness=[a.key, b.key], what="marks ~ marks_across loop")
+
+
+def _body_norm(fn: Func, loop: ast.While, ren: dict[str, str]) -> list[str]:
+    """header + flattened body statements of the loop (locals of the loop body inlined)."""
+    stmts = _inline_locals(fn.node, [loop], only_within=loop)
+    lp = stmts[0]
+    out = ["while " + " ".join(src(_Renamer(ren).visit(clone(lp.test))).split())]  # type: ignore[attr-defined]
+
+    def flat(ss: list[ast.stmt], depth: int) -> None:
+        for s_ in ss:
+            if isinstance(s_, ast.If):
+                out.append("  " * depth + "if " + " ".join(src(_Renamer(ren).visit(clone(s_.test))).split()))
+                flat(s_.body, depth + 1)
+                if s_.orelse:
+                    out.append("  " * depth + "else")
+                    flat(s_.orelse, depth + 1)
+            else:
+                out.append("  " * depth + " ".join(src(_Renamer(ren).visit(clone(s_))).split()))
+
+    flat(lp.body, 1)  # type: ignore[attr-defined]
+    return out
 
 
 def _apply_trio(prog: Program, report: Report) -> None:
